@@ -19,6 +19,7 @@ import (
 
 	"github.com/go-python/gpython/zzverif/harness"
 
+	_ "github.com/go-python/gpython/zzverif/engines/gens"
 	_ "github.com/go-python/gpython/zzverif/engines/lifecycle"
 	_ "github.com/go-python/gpython/zzverif/engines/compiledet"
 	_ "github.com/go-python/gpython/zzverif/engines/scope"
@@ -38,6 +39,7 @@ var props = map[string]propCfg{
 	"C03": {Engines: []string{"scope"}, QuickRuns: 6000, QuickSecs: 60, ThoroughRuns: 400000, ThoroughSecs: 1200, Level: "exploration"},
 	"C18": {Engines: []string{"compiledet"}, QuickRuns: 2000, QuickSecs: 50, ThoroughRuns: 400000, ThoroughSecs: 1200, Level: "exploration"},
 	"C11": {Engines: []string{"srcfault"}, QuickRuns: 400000, QuickSecs: 60, ThoroughRuns: 20000000, ThoroughSecs: 1200, Level: "fault_enumeration"},
+	"C05": {Engines: []string{"gens"}, QuickRuns: 30000, QuickSecs: 60, ThoroughRuns: 3000000, ThoroughSecs: 1200, Level: "exploration"},
 	"C09": {Engines: []string{"lifecycle"}, QuickRuns: 40000, QuickSecs: 40, ThoroughRuns: 3000000, ThoroughSecs: 900, Level: "exploration"},
 }
 
@@ -56,6 +58,8 @@ func main() {
 		os.Exit(cmdSelftest(os.Args[2:]))
 	case "gen":
 		os.Exit(cmdGen(os.Args[2:]))
+	case "triage":
+		os.Exit(cmdTriage(os.Args[2:]))
 	default:
 		usage()
 	}
@@ -792,6 +796,63 @@ func cmdGen(args []string) int {
 		}
 		ob, _ := json.MarshalIndent(map[string]interface{}{"violations": o.Violations, "shape": o.Shape, "probes": o.Probes, "steps": o.Steps, "infra": o.Infra}, "", " ")
 		fmt.Println(string(ob))
+	}
+	return 0
+}
+
+// triage runs scenarios in-process and prints every distinct violation
+// signature with its count and one example (development aid).
+func cmdTriage(args []string) int {
+	fs := flag.NewFlagSet("triage", flag.ExitOnError)
+	engine := fs.String("engine", "", "")
+	runs := fs.Int("runs", 1000, "")
+	tier := fs.String("tier", "quick", "")
+	show := fs.String("show", "", "print the scenario source of the first run matching this signature substring")
+	fs.Parse(args)
+	e := harness.Get(*engine)
+	if e == nil {
+		return 2
+	}
+	seed := envSeed()
+	count := map[string]int{}
+	example := map[string]string{}
+	shown := false
+	for idx := 0; idx < *runs; idx += 64 {
+		var batch []interface{}
+		for j := idx; j < idx+64 && j < *runs; j++ {
+			batch = append(batch, e.Gen(seed, j, *tier))
+		}
+		if err := e.Prepare(batch); err != nil {
+			fmt.Println("prepare:", err)
+			return 2
+		}
+		for bi, sc := range batch {
+			o := e.Exec(sc, harness.ExecOpts{})
+			if o.Infra != "" {
+				count["INFRA "+o.Infra]++
+			}
+			for _, v := range o.Violations {
+				k := v.Class + " [" + v.Sig + "]"
+				count[k]++
+				if _, ok := example[k]; !ok {
+					example[k] = fmt.Sprintf("idx %d: %s", idx+bi, firstLine(v.Detail))
+				}
+				if *show != "" && !shown && strings.Contains(k, *show) {
+					shown = true
+					b, _ := json.Marshal(sc)
+					fmt.Printf("SCENARIO idx=%d %s\n%s\n", idx+bi, k, b)
+				}
+				break
+			}
+		}
+	}
+	keys := make([]string, 0, len(count))
+	for k := range count {
+		keys = append(keys, k)
+	}
+	sort.Slice(keys, func(i, j int) bool { return count[keys[i]] > count[keys[j]] })
+	for _, k := range keys {
+		fmt.Printf("%6d %s\n        %s\n", count[k], k, example[k])
 	}
 	return 0
 }
